@@ -14,6 +14,9 @@ ERROR awkward_RegularArray_getitem_next_array_advanced(
   int64_t lenarray,
   int64_t size) {
   for (int64_t i = 0;  i < length;  i++) {
+    if (fromadvanced[i] < 0  ||  fromadvanced[i] >= lenarray) {
+      return failure("advanced index out of range", i, kSliceNone, FILENAME(__LINE__));
+    }
     tocarry[i] = i*size + fromarray[fromadvanced[i]];
     toadvanced[i] = i;
   }
